@@ -963,11 +963,23 @@ class Index(IndexBase):
                     return self._positions[key] + offset
                 if key.dtype != DTYPE_INT_DEFAULT: #type: ignore
                     key = key.astype(DTYPE_INT_DEFAULT) #type: ignore
+                held = (key >= 0) & (key < length) #type: ignore
+                if not held.all():
+                    if not partial_selection:
+                        raise KeyError(key)
+                    key = key[held] #type: ignore
                 return key + offset
 
             if isinstance(key, list):
-               return [k + offset for k in key]
+                if partial_selection:
+                    return [k + offset for k in key if self.__contains__(k)]
+                for k in key:
+                    if not self.__contains__(k):
+                        raise KeyError(k)
+                return [k + offset for k in key]
             # a single element
+            if not self.__contains__(key):
+                raise KeyError(key)
             return key + offset # type: ignore
 
         if key_transform:
